@@ -126,7 +126,10 @@ pub fn run_grad_px(l: &[i128]) -> Vec<i128> {
     }
     let kind = l[0];
     let (x0, y0, x1, y1, rad) = (f(l[1]), f(l[2]), f(l[3]), f(l[4]), f(l[5]));
-    let (spread, hq, blend, bg) = (l[6], l[7] != 0, l[8] % 2, l[9] % 3);
+    let (spread, hq, blend, bg) = (l[6], l[7] & 1 != 0, l[8] % 2, l[9] % 3);
+    // Paint::colorspace: 0 Linear, 1 Gamma2, 2 SimpleSRGB, 3 FullSRGBGamma.  Non-linear spaces are judged for opaque stops
+    // drawn with Source only (what a gamma curve means for a premultiplied translucent value is not documented)
+    let csi = ((l[7] >> 1) % 4) as usize;
     // Shader::apply_opacity calls made before drawing: none | 1.0 | 0.5 then 1.0 | 0.5
     let opseq: &[f32] = match l[8] / 2 {
         0 => &[],
@@ -179,7 +182,31 @@ pub fn run_grad_px(l: &[i128]) -> Vec<i128> {
     paint.shader = shader;
     paint.anti_alias = false;
     paint.force_hq_pipeline = hq;
+    paint.colorspace = [ColorSpace::Linear, ColorSpace::Gamma2, ColorSpace::SimpleSRGB, ColorSpace::FullSRGBGamma][csi];
     paint.blend_mode = if blend == 0 { BlendMode::Source } else { BlendMode::SourceOver };
+    if csi != 0 && (blend != 0 || op_total != 1.0 || raw.iter().any(|(_, c)| c[3] != 1.0)) {
+        return vec![0, 0, 0, 0, 0, 0, 0, 0, 0, 3];
+    }
+    // exact transfer functions of the colour space (the pipeline uses polynomial approximations of them)
+    let expand = move |x: f64| -> f64 {
+        match csi {
+            0 => x,
+            1 => x * x,
+            2 => x.powf(2.2),
+            _ => if x <= 0.04045 { x / 12.92 } else { ((x + 0.055) / 1.055).powf(2.4) },
+        }
+    };
+    let compress = move |x: f64| -> f64 {
+        let x = x.max(0.0).min(1.0);
+        match csi {
+            0 => x,
+            1 => x.sqrt(),
+            2 => x.powf(1.0 / 2.2),
+            _ => if x <= 0.0031308 { x * 12.92 } else { x.powf(1.0 / 2.4) * 1.055 - 0.055 },
+        }
+    };
+    // slack in linear light granted to those approximations before compressing
+    let lin_slack = if csi == 0 { 0.0 } else { 5.0e-4 };
     if canvas.is_identity() {
         pm.fill_rect(Rect::from_xywh(0.0, 0.0, w as f32, h as f32).unwrap(), &paint, Transform::identity(), None);
     } else {
@@ -189,13 +216,61 @@ pub fn run_grad_px(l: &[i128]) -> Vec<i128> {
     // (see its comment) because gradients a few 1e-5 units long occur in practice: a linear gradient clearly longer than
     // that is judged as a gradient even when a solid colour came back
     let lin_len = (((x1 - x0) as f64).powi(2) + ((y1 - y0) as f64).powi(2)).sqrt();
-    if solid && !(kind == 0 && stops.len() >= 2 && lin_len > 4.0e-5) {
-        return vec![0, 0, 0, 0, 0, 0, 0, 0, 0, 1];
-    }
     // reference
     let mut s = sanitise(&stops, &raw);
     for st in s.iter_mut() {
         st.c[3] *= op_total;
+        for j in 0..3 {
+            st.c[j] = expand(st.c[j]);
+        }
+    }
+    let tol = if hq { 2.0 } else { 3.0 };
+    if solid && kind == 0 && stops.len() >= 2 && lin_len < 2.5e-5 && csi == 0 {
+        // a degenerate linear gradient: the solid colour is the last stop's under Pad and, under Repeat / Reflect, the
+        // average of the (unpremultiplied) gradient colour over one period, the first and last colours being held on the
+        // implicit intervals before the first and after the last stop
+        let mut want = [0.0f64; 4];
+        if spread % 3 == 0 {
+            want = s[s.len() - 1].c;
+        } else {
+            for k in 0..s.len() - 1 {
+                for j in 0..4 {
+                    want[j] += 0.5 * (s[k].c[j] + s[k + 1].c[j]) * (s[k + 1].p - s[k].p);
+                }
+            }
+        }
+        let a = want[3];
+        let src = [want[0] * a, want[1] * a, want[2] * a, a];
+        let (mut checked, mut bad, mut worst, mut not_premul) = (0i128, 0i128, 0.0f64, 0i128);
+        let mut first = [0i128; 5];
+        for y in 0..h {
+            for x in 0..w {
+                let got = pm.pixel(x, y).unwrap();
+                let g = [got.red() as f64, got.green() as f64, got.blue() as f64, got.alpha() as f64];
+                if g[0] > g[3] || g[1] > g[3] || g[2] > g[3] {
+                    not_premul += 1;
+                }
+                checked += 1;
+                for j in 0..4 {
+                    let v = if blend == 0 { src[j] * 255.0 } else { src[j] * 255.0 + bgc[j] as f64 * (1.0 - a) };
+                    let e = (g[j] - v).abs();
+                    if e > worst {
+                        worst = e;
+                    }
+                    if e > tol + 0.5 {
+                        bad += 1;
+                        if first[4] == 0 {
+                            first = [x as i128, y as i128, j as i128, g[j] as i128 * 1000 + v as i128, 1];
+                        }
+                        break;
+                    }
+                }
+            }
+        }
+        return vec![checked, bad, (worst * 100.0) as i128, first[0], first[1], first[2], first[3], 0, 0, 0, not_premul, 1];
+    }
+    if solid && !(kind == 0 && stops.len() >= 2 && lin_len > 4.0e-5) {
+        return vec![0, 0, 0, 0, 0, 0, 0, 0, 0, 1];
     }
     // device = canvas(ts(gradient space))
     let inv = match canvas.pre_concat(ts).invert() {
@@ -203,7 +278,6 @@ pub fn run_grad_px(l: &[i128]) -> Vec<i128> {
         None => return vec![0, 0, 0, 0, 0, 0, 0, 0, 0, 2],
     };
     let (isx, ikx, iky, isy, itx, ity) = (inv.sx as f64, inv.kx as f64, inv.ky as f64, inv.sy as f64, inv.tx as f64, inv.ty as f64);
-    let tol = if hq { 2.0 } else { 3.0 };
     let (sx0, sy0, sx1, sy1, r) = (x0 as f64, y0 as f64, x1 as f64, y1 as f64, rad as f64);
     // the implementation treats a focal point within 1/4096 (relative) of the end circle as lying on it; between
     // "exactly on" and that threshold either reading is defensible, so such inputs are not judged
@@ -300,6 +374,12 @@ pub fn run_grad_px(l: &[i128]) -> Vec<i128> {
                 let a = c[3];
                 let src = [c[0] * a, c[1] * a, c[2] * a, a];
                 for j in 0..4 {
+                    if csi != 0 && j < 3 {
+                        // opaque, Source: the stored value is the compressed linear colour
+                        lo[j] = lo[j].min(compress(src[j] - lin_slack) * 255.0);
+                        hi[j] = hi[j].max(compress(src[j] + lin_slack) * 255.0);
+                        continue;
+                    }
                     let v = if blend == 0 { src[j] * 255.0 } else { src[j] * 255.0 + bgc[j] as f64 * (1.0 - a) };
                     lo[j] = lo[j].min(v);
                     hi[j] = hi[j].max(v);
